@@ -212,7 +212,8 @@ pub struct SConf {
     pub interval: Option<usize>,
     pub levels: Option<u8>,
     pub creator: CreatorKind,
-    /// order in which the builder's setters are called (they commute: the built sorter must not depend on it)
+    /// order in which the builder's setters are called (they commute: the built sorter must not depend on it);
+    /// `order % 6` rotates the four groups of setters, `order >= 6` calls `chunk_creator` after them instead of before
     #[serde(default)]
     pub order: u8,
 }
@@ -323,7 +324,7 @@ pub fn sconf_small() -> BoxedStrategy<SConf> {
         any::<bool>(),
         prop_oneof![3 => Just(false), 1 => Just(true)],
         chunk,
-        0u8..6,
+        0u8..12,
         prop_oneof![6 => Just(CreatorKind::CursorVec), 1 => Just(CreatorKind::TempFile), 4 => Just(CreatorKind::Instrumented), 1 => Just(CreatorKind::InstrumentedReentrant), 2 => Just(CreatorKind::InstrumentedStaging)],
     )
         .prop_map(|(thr, cap, allow_realloc, max_nb_chunks, stable, parallel, (chunk_codec, chunk_level, block_size, interval, levels), order, creator)| {
